@@ -57,6 +57,7 @@ def c_harness(info, msg_order, kinds):
       H <d> t...   run a scheduler history on device d in a forked child; before call j every
                    integer member k of message i is set to (j*17 + i*31 + k*7) & 0x7f;
                    prints 'S j id dlc data' per transmitted frame and 'X' at the end
+      G 0 t...     the same, but EVERY device's scheduler is called (in device order) with each timestamp
     """
     out = ['#include <stdio.h>', '#include <stdlib.h>', '#include <string.h>', '#include <stdint.h>',
            '#include <inttypes.h>', '#include <unistd.h>', '#include <sys/wait.h>', '#include "can_frame.h"']
@@ -97,15 +98,25 @@ def c_harness(info, msg_order, kinds):
     devs = sorted(d for d, v in info["devices"].items() if v["sched"])
     for di, dev in enumerate(devs):
         d = info["devices"][dev]
-        out.append("static void hist_%d(char **tok, int n){ CanDevice%s dev; memset(&dev,0,sizeof(dev));" % (di, dev))
-        out.append("  for (int j=0;j<n;j++){ g_call=j; uint32_t t=(uint32_t)strtoul(tok[j],NULL,10);")
+        out.append("static void step_%d(CanDevice%s *dev, int j, uint32_t t){ g_call=j;" % (di, dev))
         for i, (mtype, mname) in enumerate(d["members"]):
             pascal = mtype.replace("CanMsg", "", 1)
             for kidx, (ctype, name, arr) in enumerate(info["messages"][pascal]["members"]):
                 if kinds[pascal][name] in ("u", "i", "enum"):
-                    out.append("    dev.%s.%s = (%s)((j*17 + %d*31 + %d*7) & 0x7f);" % (mname, name, ctype, i, kidx))
-        out.append("    can_send_%s_msgs_scheduled(&dev, t, cb); }" % d["sched"])
+                    out.append("    dev->%s.%s = (%s)((j*17 + %d*31 + %d*7) & 0x7f);" % (mname, name, ctype, i, kidx))
+        out.append("    can_send_%s_msgs_scheduled(dev, t, cb); }" % d["sched"])
+        out.append("static void hist_%d(char **tok, int n){ CanDevice%s dev; memset(&dev,0,sizeof(dev));" % (di, dev))
+        out.append("  for (int j=0;j<n;j++){ uint32_t t=(uint32_t)strtoul(tok[j],NULL,10); step_%d(&dev, j, t); }" % di)
         out.append("}")
+    # G: every device of the program is called, in device order, with each timestamp (one process, as on
+    # a node that hosts several logical devices)
+    out.append("static void hist_all(char **tok, int n){")
+    for di, dev in enumerate(devs):
+        out.append("  CanDevice%s dev%d; memset(&dev%d,0,sizeof(dev%d));" % (dev, di, di, di))
+    out.append("  for (int j=0;j<n;j++){ uint32_t t=(uint32_t)strtoul(tok[j],NULL,10);")
+    for di, dev in enumerate(devs):
+        out.append("    step_%d(&dev%d, j, t);" % (di, di))
+    out.append("  } }")
     out.append("int main(void){ static char line[1<<16]; long n=0; char *tok[4096];")
     out.append("  while (fgets(line,sizeof line,stdin)) { printf(\"#%ld\\n\", n++); fflush(stdout); int c=0; for(char *p=strtok(line,\" \\n\"); p && c<4096; p=strtok(NULL,\" \\n\")) tok[c++]=p; if(c<2) { printf(\"BAD\\n\"); continue; }")
     out.append("    int idx = atoi(tok[1]);")
@@ -121,6 +132,7 @@ def c_harness(info, msg_order, kinds):
     for di, dev in enumerate(devs):
         out.append("      case %d: hist_%d(tok+2, c-2); break;" % (di, di))
     out.append("      default: printf(\"BAD\\n\"); } printf(\"X\\n\"); fflush(stdout); _exit(0); } int st=0; waitpid(pid,&st,0); if(!(WIFEXITED(st) && WEXITSTATUS(st)==0)) printf(\"CHILD-FAILED %d\\n\", st); }")
+    out.append("    else if (tok[0][0]=='G') { fflush(stdout); pid_t pid=fork(); if(pid==0){ hist_all(tok+2, c-2); printf(\"X\\n\"); fflush(stdout); _exit(0); } int st=0; waitpid(pid,&st,0); if(!(WIFEXITED(st) && WEXITSTATUS(st)==0)) printf(\"CHILD-FAILED %d\\n\", st); }")
     out.append("    else printf(\"BAD\\n\"); fflush(stdout); }")
     out.append("  return 0; }")
     return "\n".join(out) + "\n", devs
